@@ -689,7 +689,7 @@ def run(ctx):
                  ("a", "a:", 27), ("", "", 28), ("tail ", "", 29), ("clock", "sso", 0), ("clock2", "", "")]
         hostile = [("a", ":b", "30"), ("a:", ":b", "31"), ("a", "x::y", "32"), ("a", "b ", "33"), ("a", "   ", "34"),
                    ("a", "b", "1|7"), ("a", "b", "3 5"), ("a", "::", "36"), ("a", ":", "37"), ("a", "b", "å7")]
-        nrand = 25 if ctx.quick else 300
+        nrand = 25 if ctx.quick else 600
         for mode in modes:
             for v, t, ts in fixed:
                 do_make(ctx, U, mode, v, t, ts, clock.now, make_cases, parse_cases, "roundtrip-fixed")
@@ -726,7 +726,7 @@ def run(ctx):
     # ---- (3) providers
     provider_cookies(ctx, U, {m.name: m for m in modes}, rng, make_cases, parse_cases)
     # ---- (2) structural mutations
-    nbase = 6 if ctx.quick else 25
+    nbase = 6 if ctx.quick else 60
     for mode in modes:
         gen = [g for g in mode.genuine if g[3]]
         if len(gen) < 2:
